@@ -37,6 +37,15 @@ mut("R11_unset_filters_added", "src/client/amended.rs", """            .chain(
                     .filter(|v| !self.unset.iter().any(|x| x == v.0)),
             )""", """            .chain(self.request.headers().iter())
             .filter(|v| !self.unset.iter().any(|x| x == v.0))""", ["C16", "C02"])
+mut("R13_te_first_line_only", "src/body.rs", """        let chunked = headers
+            .get_all("transfer-encoding")
+            .iter()
+            .filter_map(|v| v.to_str().ok())
+            .flat_map(|v| v.split(','))""", """        let chunked = headers
+            .get("transfer-encoding")
+            .into_iter()
+            .filter_map(|v| v.to_str().ok())
+            .flat_map(|v| v.split(','))""", ["C06"])
 mut("R12_builder_expect", "src/parser.rs", "    let response = builder\n        .body(())\n        .map_err(|e| Error::HttpParseFail(e.to_string()))?;\n\n    Ok(Some((input_used, response)))", "    let response = builder.body(()).expect(\"a valid response\");\n\n    Ok(Some((input_used, response)))", ["C12"])
 
 # ---------------------------------------------------------------- per-property mutants ("must catch" lists of DESIGN section 7)
